@@ -211,6 +211,20 @@ func (c *Ctx) constName(k *ssa.Const) string {
 			}
 		}
 	}
+	if nt, ok := k.Type().(*types.Named); ok && nt.Obj().Pkg() == c.Types {
+		var names []string
+		switch nt.Obj().Name() {
+		case "Options":
+			names = []string{"HelpFlag", "PassDoubleDash", "IgnoreUnknown", "PrintErrors", "PassAfterNonOption"}
+		case "IniOptions":
+			names = []string{"IniIncludeDefaults", "IniCommentDefaults", "IniIncludeComments"}
+		}
+		for _, n := range names {
+			if kk, ok := c.Types.Scope().Lookup(n).(*types.Const); ok && constant.Compare(kk.Val(), token.EQL, k.Value) {
+				return n
+			}
+		}
+	}
 	if k.Value.Kind() == constant.String {
 		return k.Value.ExactString()
 	}
